@@ -64,6 +64,14 @@ TraceLoopback ==
   /\ net.layers[r.into].in = net.layers[r.outof].out
   /\ net' = [net EXCEPT !.loops = @ \cup {[outof |-> r.outof, into |-> r.into, iterations |-> r.iterations, inskips |-> r.inskips]}]
 
+\* set_activation(layer, act): replaces the activation of a dense / convolution / deconvolution layer; refused for
+\* max-pool layers, feedback blocks and indices out of range
+TraceSetActivation ==
+  /\ IsEvent("SetActivation")
+  /\ IF r.layer \in 1..Len(net.layers) /\ net.layers[r.layer].kind \in {"dense", "conv", "deconv"}
+       THEN r.outcome = "ok" /\ net' = [net EXCEPT !.layers[r.layer].cfg.act = r.act]
+       ELSE r.outcome = "panic" /\ net' = net
+
 TraceSetAcc == IsEvent("SetAcc") /\ net' = [net EXCEPT !.skipacc = r.skip, !.loopacc = r.loop]
 
 TraceForward ==
@@ -90,7 +98,7 @@ TraceBackward ==
             /\ B.grads[i].dw = r.grads[i].dw
             /\ net.layers[i].cfg.bias => B.grads[i].db = r.grads[i].db
 
-TraceNext == TraceNew \/ TraceAdd \/ TraceAddBlock \/ TraceConnect \/ TraceLoopback \/ TraceSetAcc \/ TraceForward \/ TraceBackward
+TraceNext == TraceNew \/ TraceAdd \/ TraceAddBlock \/ TraceSetActivation \/ TraceConnect \/ TraceLoopback \/ TraceSetAcc \/ TraceForward \/ TraceBackward
 TraceSpec == TraceInit /\ [][TraceNext]_tvars
 
 TraceAccepted ==
